@@ -411,7 +411,7 @@ def gen_program_c09(rng, name, world, tier):
     canon = {"extra_col": rng.choice([None, "V", "tail"])}
     prog.append({"op": "fill.call", "target": system, "present": dict(canon), "flags": flags, "expect_ok": True})
     ref = 0
-    variants = rng.sample(["perm", "upper", "int", "path", "abspath", "nopath", "cli", "calc", "again", "norank", "noresid", "wrongsys", "wrongsys"], rng.randint(3, 7))
+    variants = rng.sample(["perm", "upper", "int", "path", "abspath", "nopath", "cli", "calc", "again", "norank", "noresid", "wrongsys", "wrongsys", "index", "offset"], rng.randint(3, 8))
     for v in variants:
         pres = dict(canon)
         if v == "norank" and system != "triclinic":
@@ -437,6 +437,20 @@ def gen_program_c09(rng, name, world, tier):
             prog.append({"op": "fill.call", "target": other, "present": dict(canon), "flags": flags, "keep_frame": fid})
             prog.append({"op": "fill.call", "target": system, "present": dict(canon), "flags": flags, "use_frame": fid, "ref": ref,
                          "ref_what": "the same table object after a call with another crystal system that was refused", "expect_ok": True})
+        elif v == "index":
+            pres["index"] = rng.choice(["shift", "volumes", "labels", "reversed"])
+            prog.append({"op": "fill.call", "target": system, "present": pres, "flags": flags, "ref": ref, "ref_what": "row index of the table (not 0..N-1)", "expect_ok": True})
+        elif v == "offset" and system != "triclinic":
+            # a user-written relations file that is the system's, except that ONE plain equality a = b carries a constant term: a = b + d
+            pairs = [(ch[0][1:], ch[1][1:]) for ch in W._CHAINS[system] if len(ch) >= 2 and all(len(x) == 3 and x[0] == "c" for x in ch[:2])]
+            if system in W.TRIPLE:      # c11 also enters c66 = (c11 - c12) / 2 there: shifting it would contradict a supplied c66
+                pairs = [p_ for p_ in pairs if "11" not in p_]
+            if pairs:
+                a, b = rng.choice(pairs)
+                d = rng.choice([30.0, -12.5, 7.0])
+                rel = f"{world['cwd']}/offset_relations_{name.lower()}{len(prog)}.txt"
+                pres["offset"] = [a, b, d]
+                prog.append({"op": "fill.call", "target": {"relpath": rel, "abs": rng.random() < 0.5, "offset": [a, b, d]}, "present": pres, "flags": flags, "expect_ok": True})
         elif v == "perm":
             perm = list(range(ncol))
             rng.shuffle(perm)
@@ -455,7 +469,8 @@ def gen_program_c09(rng, name, world, tier):
             prog.append({"op": "fill.call", "target": {"relpath": f"{world['cwd']}/no_such_rel_{name.lower()}.txt", "abs": rng.random() < 0.5},
                          "present": pres, "flags": flags, "expect_fail": True})
         elif v == "cli":
-            prog.append({"op": "cli.fill", "system": system, "store": "f%d" % len(prog), "flags": [], "abs": rng.random() < 0.5, "expect_ok": True})
+            prog.append({"op": "cli.fill", "system": system, "store": "f%d" % len(prog), "flags": [], "abs": rng.random() < 0.5, "expect_ok": True,
+                         "ref": ref, "ref_what": "the command line on the file versus the function on the same numbers", "printed": True, "modulus_only": True})
             if st["integer"] and any(st["int_cols"]):
                 prog.append({"op": "cli.fill", "system": system, "store": "f%d" % len(prog), "flags": [], "float_copy": True, "printed": True,
                              "ref": len(prog) - 1, "ref_what": "integer-looking versus float-looking columns in the file", "expect_ok": True})
@@ -841,7 +856,7 @@ def gen_scenario(prop, seed, tier, faults_enabled=None, nclients=None, segments_
             w["valid"] = False
         if prop == "C19":
             w["stubs"] = gen_stub_tables(rng, n, w, rng.randint(0, 2))
-        if prop == "C17" and rng.random() < 0.5:
+        if prop in ("C17", "C09") and rng.random() < 0.5:
             w["stubs"] = gen_stub_tables(rng, n, w, 1)      # other commands of the package used in the same process: history for the readers and for fill
         worlds[n] = w
     segments = prop in ("C14", "C12", "C15", "C19", "C09") and nclients > 1 and rng.random() < ((0.45 if prop in ("C14", "C12") else 0.3) if segments_p is None else segments_p)
@@ -851,7 +866,7 @@ def gen_scenario(prop, seed, tier, faults_enabled=None, nclients=None, segments_
                 worlds[n]["datadir"] = "d" + n.lower()
             worlds[n]["cwd"] = "ws"
     programs = {n: gen_program(rng, prop, n, worlds[n], tier, no_chdir=bool(segments)) for n in names}
-    if prop == "C17":
+    if prop in ("C17", "C09"):
         for n in names:
             for st in worlds[n].get("stubs", []):
                 for _ in range(rng.randint(1, 2)):
@@ -861,6 +876,9 @@ def gen_scenario(prop, seed, tier, faults_enabled=None, nclients=None, segments_
                     else:
                         op = {"op": "cli.geotherm", "geotherm": "g.txt", "columns": ["P", "T"], "pname": "P", "tname": "T", "variables": [st["var"]],
                               "points": [[rng.choice(st["P"]), rng.choice(st["T"])] for _ in range(3)], "int_text": False, "hide_header": False, "abs": True}
+                    for o in programs[n]:          # "ref" fields are program positions
+                        if o.get("ref") is not None and o["ref"] >= k:
+                            o["ref"] += 1
                     programs[n].insert(k, op)
     if prop == "C19" and nclients > 1 and len({worlds[n]["cwd"] for n in names}) == 1:
         # one directory collecting the results of several runs: a request may name tables of different runs (different grids)
@@ -898,6 +916,8 @@ def gen_scenario(prop, seed, tier, faults_enabled=None, nclients=None, segments_
             if op["op"] == "fill.call" and isinstance(op["target"], dict) and "relations_" in op["target"]["relpath"] and "no_such" not in op["target"]["relpath"]:
                 if not any(e["path"] == op["target"]["relpath"] for e in extra):
                     extra.append({"client": n, "path": op["target"]["relpath"], "text": W.relations_text(w["static"]["system"], rng)})
+            if op["op"] == "fill.call" and isinstance(op["target"], dict) and op["target"].get("offset"):
+                extra.append({"client": n, "path": op["target"]["relpath"], "text": W.relations_text(w["static"]["system"], rng, offset=op["target"]["offset"])})
     schedule = [n for n in names for _ in programs[n]]
     rng.shuffle(schedule)
     if segments:
